@@ -388,6 +388,10 @@ pub fn text(c: &Case) -> String {
         "contained" => body += &format!("P ::= {}\nA ::= {}", base(&all), base("(P)")),
         // the contained subtype is itself a constrained reference
         "contained-via-reference" => body += &format!("Q ::= {}\nP ::= Q {}\nA ::= {}", base(""), all, base("(P)")),
+        // the contained subtype as operand of a set operation: first constraint on P, second as the other operand
+        "contained-union" => body += &format!("P ::= {}\nA ::= {}", base(&first), base(&format!("(P | {})", expr_text(&c.cons[1], "assign", false)))),
+        "contained-union-rev" => body += &format!("P ::= {}\nA ::= {}", base(&first), base(&format!("({} | P)", expr_text(&c.cons[1], "assign", false)))),
+        "contained-inter" => body += &format!("P ::= {}\nA ::= {}", base(&first), base(&format!("(P ^ {})", expr_text(&c.cons[1], "assign", false)))),
         // extension marker after the contained subtype
         "contained-ext" => body += &format!("P ::= {}\nA ::= {}", base(&all), base("(P, ...)")),
         "contained-includes" => body += &format!("P ::= {}\nA ::= {}", base(&all), base("(INCLUDES P)")),
@@ -509,7 +513,7 @@ impl Prop for C04 {
         "C04"
     }
     fn rule(&self) -> String {
-        "subtype expressions of 1..3 operands (single value or range with endpoints from {MIN,-3,0,2,5,9,MAX}; 32 operands) joined by | ^ EXCEPT without parentheses, ALL EXCEPT x, optional extension marker, 1..2 serial constraints, finite ranges also written with excluded endpoints (`a<..b`, `a..<b`, `a<..<b`), on INTEGER / BIT STRING / OCTET STRING / IA5String / SEQUENCE OF / SET OF (SIZE wrapping, non-negative operands), as type assignment, component, through a constrained parent reference, as the constraint of a SEQUENCE OF element or of a component whose type is a reference to the unconstrained type (INTEGER, OCTET STRING, SEQUENCE OF), as a contained subtype `(P)` / `(INCLUDES P)` of a type carrying the expression (INTEGER and SIZE-constrained OCTET STRING), with value references and with named numbers as endpoints, both operator spellings. Oracle: exact set semantics on a 19-point universe (bit sets) for soundness, interval fold (hull/∩/EXCEPT ignored) under X.680 precedence for equality, marker⇔extensible. A case is non-trivial when it compiled cleanly and a bound (or its absence) was read from the item and compared.".into()
+        "subtype expressions of 1..3 operands (single value or range with endpoints from {MIN,-3,0,2,5,9,MAX}; 32 operands) joined by | ^ EXCEPT without parentheses, ALL EXCEPT x, optional extension marker, 1..2 serial constraints, finite ranges also written with excluded endpoints (`a<..b`, `a..<b`, `a<..<b`), on INTEGER / BIT STRING / OCTET STRING / IA5String / SEQUENCE OF / SET OF (SIZE wrapping, non-negative operands), as type assignment, component, through a constrained parent reference, as the constraint of a SEQUENCE OF element or of a component whose type is a reference to the unconstrained type (INTEGER, OCTET STRING, SEQUENCE OF), as a contained subtype `(P)` / `(INCLUDES P)` alone and as an operand of a union / intersection with a second expression of a type carrying the expression (INTEGER and SIZE-constrained OCTET STRING), with value references and with named numbers as endpoints, both operator spellings. Oracle: exact set semantics on a 19-point universe (bit sets) for soundness, interval fold (hull/∩/EXCEPT ignored) under X.680 precedence for equality, marker⇔extensible. A case is non-trivial when it compiled cleanly and a bound (or its absence) was read from the item and compared.".into()
     }
     fn selftest(&self) -> Result<u64, String> {
         // interval algebra vs brute force over the universe
@@ -649,6 +653,14 @@ impl Prop for C04 {
                 out.push(mk(vec![with_ext(e, x)], "INTEGER", "reference-component", false, false));
             }
         }
+        // a contained subtype as operand of a union / intersection with a second expression
+        for a in e1.iter() {
+            for b in e1.iter() {
+                for ctx in ["contained-union", "contained-union-rev", "contained-inter"] {
+                    out.push(mk(vec![a.clone(), b.clone()], "INTEGER", ctx, false, false));
+                }
+            }
+        }
         // contained subtypes: the expression sits on a referenced type (non-extensible expressions)
         for e in e1.iter().chain(e2.iter()) {
             for ctx in ["contained", "contained-includes", "contained-component", "contained-via-reference", "contained-ext"] {
@@ -749,11 +761,16 @@ impl Prop for C04 {
                 None => return CaseResult::skip("invalid-notation"),
             }
         }
-        let exact_all = sems.iter().fold(ALL, |a, s| a & s.exact);
+        let union_ctx = c.ctx.starts_with("contained-union");
+        let exact_all = if union_ctx { sems.iter().fold(0, |a, s| a | s.exact) } else { sems.iter().fold(ALL, |a, s| a & s.exact) };
         if exact_all == 0 || sems.iter().any(|s| s.degenerate) {
             return CaseResult::skip("empty-or-degenerate");
         }
         let fold = |f: &dyn Fn(&Sem) -> Result<Iv, ()>| -> Result<Iv, ()> {
+            if union_ctx {
+                // hull of the two operands
+                return Ok(iv_hull(f(&sems[0])?, f(&sems[1])?));
+            }
             let mut acc = Iv::R(if unsigned { Some(0) } else { None }, None);
             for s in &sems {
                 acc = iv_inter(acc, f(s)?);
